@@ -26,6 +26,7 @@ PROP = "C08"
 DRIVER = Driver("driver_c08", "Drivers/C08.lean")
 BYTES_SIG = "C08:bytes-undecodable-hex-collision"
 SPEC_KINDS = ("canon", "sep", "facade")
+BINDS = {"b": "bind", "p": "bind_partial", "d": "bind+apply_defaults", "q": "bind_partial+apply_defaults"}
 
 TRUSTED = [
     "Lean 4.33.0 kernel; axioms of every theorem audited to be within {propext, Classical.choice, Quot.sound}",
@@ -129,16 +130,21 @@ def group_bounds(case):
     kinds = {n: k for k, n, _ in case["sig"]}
     out = []
     for g in case["groups"]:
-        c = g["calls"][0]
-        args = tuple(kc.dec(x) for x in c["args"])
-        kwargs = {n: kc.dec(v) for n, v in c["kwargs"]}
-        try:
-            ba = psig.bind(*args, **kwargs)
-        except TypeError:
-            out.append(None)
-            continue
-        ba.apply_defaults()
-        out.append({kc.param_key(kinds[n], n): v for n, v in ba.arguments.items()})
+        forms = []
+        for c in g["calls"]:
+            args = tuple(kc.dec(x) for x in c["args"])
+            kwargs = {n: kc.dec(v) for n, v in c["kwargs"]}
+            try:
+                ba = psig.bind(*args, **kwargs)
+            except TypeError:
+                forms.append(None)
+                continue
+            ba.apply_defaults()
+            forms.append({kc.param_key(kinds[n], n): v for n, v in ba.arguments.items()})
+        canon = {None if b is None else kc.canon(b) for b in forms}
+        if len(canon) != 1:
+            raise HarnessError(f"calls of one group do not have the same bound arguments: {[pretty_call(c) for c in g['calls']]}")
+        out.append(forms[0])
     return out
 
 
@@ -165,12 +171,12 @@ def evaluate(case, impl, model, stats=None) -> list[dict]:
         mk = model_key(mc["key"])
         keys[(gi, ci)] = ic["key"]
         if ic["key"] != mk:
-            fails.append({"kind": "model", "at": [gi, ci], "detail": f"key: impl {ic['key']!r} model {mk!r} for call {c}"})
+            fails.append({"kind": "model", "at": [gi, ci], "detail": f"key: impl {ic['key']!r} model {mk!r} for call {pretty_call(c)}"})
         if case["via"] != "decorator":
             for f in "bpdq":
                 if ic[f] != mc[f]:
                     fails.append({"kind": "inspect", "at": [gi, ci],
-                                  "detail": f"binding {f}: python {ic[f]} model {mc[f]} for call {c}"})
+                                  "detail": f"binding {BINDS[f]}: python {ic[f]} model {mc[f]} for call {pretty_call(c)}"})
         else:
             direct = ic.get("direct")
             if direct is not None and direct != ic["key"]:
@@ -201,7 +207,7 @@ def evaluate(case, impl, model, stats=None) -> list[dict]:
         if bad:
             ci = bad[0]
             fails.append({"kind": "canon", "at": [gi, 0, ci],
-                          "detail": f"same bound arguments, different keys: {g['calls'][0]} -> {ks[0]!r} but {g['calls'][ci]} -> {ks[ci]!r}"})
+                          "detail": f"same bound arguments, different keys: {pretty_call(g['calls'][0])} -> {ks[0]!r} but {pretty_call(g['calls'][ci])} -> {ks[ci]!r}"})
     # --- the property, part 2: different bound arguments (in the stated domain) have different keys
     fields = [t for k, t in (tmpl_items or []) if k == "F"]
     if tmpl_items is None:
@@ -230,7 +236,7 @@ def evaluate(case, impl, model, stats=None) -> list[dict]:
                     by_bytes = all(explained_by_bytes(bi[f], bj[f]) for f in diff)
                     fails.append({"kind": "sep", "at": [i, j], "signature": BYTES_SIG if by_bytes else None,
                                   "detail": f"bound arguments differ in {typed} but share the key {ki!r}: "
-                                            f"{case['groups'][i]['calls'][0]} / {case['groups'][j]['calls'][0]}"})
+                                            f"{pretty_call(case['groups'][i]['calls'][0])} / {pretty_call(case['groups'][j]['calls'][0])}"})
     # --- the property at the facade: a decorated call never returns another tuple's result
     if case["via"] == "decorator":
         writer = {}
@@ -251,7 +257,7 @@ def evaluate(case, impl, model, stats=None) -> list[dict]:
                 in_domain = any(f["kind"] == "sep" and set(f["at"]) == {gi, other} for f in fails) if other is not None else True
                 if in_domain:
                     fails.append({"kind": "facade", "at": [gi, ci], "signature": sig,
-                                  "detail": f"decorated call {c} returned {ic['result']!r}, its own result is {exp!r}"})
+                                  "detail": f"decorated call {pretty_call(c)} returned {ic['result']!r}, its own result is {exp!r}"})
             bump("decorated_calls")
             if ic["ran"] == 0:
                 bump("decorated_cache_hits")
@@ -376,6 +382,12 @@ def shrink(case, fail) -> dict:
         d = without_params(c, [])
         if still_fails(d, kind):
             c = d
+    for i, (k, n, dflt) in enumerate(c["sig"]):
+        if dflt is not None:
+            d = copy.deepcopy(c)
+            d["sig"][i][2] = None
+            if still_fails(d, kind):
+                c = d
     return c
 
 
@@ -388,7 +400,11 @@ def pretty_sig(case) -> str:
     params, ns = kc.sig_source(case["sig"])
     for k, v in ns.items():
         params = params.replace(k, repr(v))
-    return f"def {case['names']['name']}({params})"
+    ctx = case.get("ctx")
+    extra = ""
+    if ctx:
+        extra = " under key_context(" + ", ".join(([("rewrite=True")] if ctx["rewrite"] else []) + [f"{n}={kc.dec(v)!r}" for n, v in ctx["vals"]]) + ")"
+    return f"def {case['names']['name']}({params})" + extra
 
 
 def report(chk: Check, case, fail, origin):
@@ -431,13 +447,17 @@ def gen_cases_for_sig(rng, sig, names, rich: bool):
     """the cases of one signature: automatic + explicit templates x (base tuple + mutants) x all call forms,
     plus a malformed stream (unbindable calls, '' and ':' in values, fields that are no parameters)"""
     out = []
-    base = kc.gen_bound(rng, sig)
-    bounds = [base]
-    for _ in range(3 if rich else 2):
-        nb, _ = kc.mutate_bound(rng, sig, rng.choice(bounds), same_type=rng.random() < 0.8)
-        if nb is not None and kc.bound_canon(sig, nb) not in {kc.bound_canon(sig, b) for b in bounds}:
-            bounds.append(nb)
-    groups = [{"calls": kc.call_forms(rng, sig, b)} for b in bounds]
+
+    def family(scalar):
+        bounds = [kc.gen_bound(rng, sig, scalar=scalar)]
+        for _ in range(3 if rich or scalar else 2):
+            nb, _ = kc.mutate_bound(rng, sig, rng.choice(bounds), same_type=scalar or rng.random() < 0.8)
+            if nb is not None and kc.bound_canon(sig, nb) not in {kc.bound_canon(sig, b) for b in bounds}:
+                bounds.append(nb)
+        return [{"calls": kc.call_forms(rng, sig, b, limit=6 if scalar else 12)} for b in bounds]
+
+    groups = family(False)
+    sgroups = family(True) if sig else None
     tmpls = [{"auto": []}]
     pkeys = [kc.param_key(k, n) for k, n, _ in sig]
     if pkeys and rng.random() < 0.3:
@@ -452,6 +472,8 @@ def gen_cases_for_sig(rng, sig, names, rich: bool):
                 "via": via, "prefix": rng.choice(["", "", "pp", "v1:x"]) if via == "decorator" and "items" in t else "",
                 "groups": copy.deepcopy(groups), "stream": "wellformed"}
         out.append(case)
+        if sgroups and ("auto" in t or kc.is_separated(t["items"])):
+            out.append(dict(case, via="direct" if via == "default" else via, ctx=None, groups=copy.deepcopy(sgroups), stream="scalar"))
     # malformed stream
     mgroups = []
     pnames = [n for _, n, _ in sig]
@@ -481,6 +503,31 @@ def known_witness_cases():
         {"names": names, "sig": sig, "tmpl": {"auto": []}, "ctx": None, "via": "direct", "prefix": "", "groups": groups, "stream": "known"},
         {"names": names, "sig": sig, "tmpl": {"auto": []}, "ctx": None, "via": "decorator", "prefix": "", "groups": groups, "stream": "known"},
     ]
+
+
+def probe_cases():
+    """fixed pairs of bound tuples that are one rendering or separator slip away from sharing a key
+    (concatenations that agree: 'a'+'bc' = 'ab'+'c'), for one-, two-parameter and *args signatures"""
+    names = {"module": "m", "name": "f", "qualname": "f"}
+    e = kc.enc
+    pairs = [(("a", "bc"), ("ab", "c")), ((1, 23), (12, 3)), ((b"a", b"bc"), (b"ab", b"c")), ((True, "x"), (True, "y")),
+             (("a", "a:"), ("a", "a")), ((None, "x"), (None, "y"))]
+    out = []
+    for x, y in pairs:
+        two = [{"calls": [{"args": [e(x[0]), e(x[1])], "kwargs": []}, {"args": [], "kwargs": [["b", e(x[1])], ["a", e(x[0])]]}]},
+               {"calls": [{"args": [e(y[0]), e(y[1])], "kwargs": []}]}]
+        one = [{"calls": [{"args": [e(x)], "kwargs": []}]}, {"calls": [{"args": [e(y)], "kwargs": []}]}]
+        twop = [{"calls": two[0]["calls"][:1]}, two[1]]
+        for sig, groups in (([["p", "a", None], ["p", "b", None]], two), ([["s", "args", None]], twop),
+                            ([["p", "a", None], ["s", "args", None]], twop), ([["p", "a", None]], one)):
+            tmpls = [{"auto": []}]
+            if len(sig) == 2 and sig[1][0] == "p":
+                tmpls.append({"items": [["F", "a"], ["L", ":"], ["F", "b"]]})
+            for t in tmpls:
+                for via in ("direct", "decorator"):
+                    out.append({"names": names, "sig": sig, "tmpl": t, "ctx": None, "via": via, "prefix": "",
+                                "groups": copy.deepcopy(groups), "stream": "probe"})
+    return out
 
 
 def corpus_cases():
@@ -526,14 +573,18 @@ def value_correspondence(chk, stats):
             bad.append((v, fast, mfast, slow, mslow))
     stats["value_renderings_compared"] = len(vals)
     stats["bytes_values_compared"] = sum(isinstance(v, bytes) for v in vals)
-    for v, fast, mfast, slow, mslow in bad[:3]:
+    return bad
+
+
+def report_value_diffs(chk, bad):
+    for v, fast, mfast, slow, mslow in bad[:2]:
         case = {"names": {"module": "m", "name": "f", "qualname": "f"}, "sig": [["p", "a", None]],
                 "tmpl": {"items": [["F", "a"]]}, "ctx": None, "via": "direct", "prefix": "",
                 "groups": [{"calls": [{"args": [kc.enc(v)], "kwargs": []}]}]}
         chk.violation(f"correspondence broken (value rendering differs from the model Key.typeFmt/fmtField) for {v!r}: "
-                      f"impl fast {fast!r} slow {slow!r}, model fast {mfast!r} slow {mslow!r}",
+                      f"impl fast {fast!r} slow {slow!r}, model fast {mfast!r} slow {mslow!r}; no input was found on which the "
+                      "implementation contradicts the property",
                       {"case": case, "value": repr(v), "broken": "formatter rendering of one value"}, signature=None, no_input=True)
-    return len(bad)
 
 
 def run(chk: Check) -> int:
@@ -544,10 +595,8 @@ def run(chk: Check) -> int:
     evaluations = 0
     calls_total = 0
     shapes = kc.all_shapes(4)
-    if chk.thorough:
-        chosen = [(s, rep) for s in shapes for rep in range(2)]
-    else:
-        chosen = [(s, 0) for s in rng.sample(shapes, 110)]
+    reps = chk.budget(3, 40)
+    chosen = [(s, rep) for rep in range(reps) for s in shapes]
     cases = []
     origin = []
     for name, c in corpus_cases():
@@ -557,6 +606,9 @@ def run(chk: Check) -> int:
     for c in known_witness_cases():
         cases.append(c)
         origin.append("known-witness")
+    for c in probe_cases():
+        cases.append(c)
+        origin.append("probe")
     sig_count = 0
     for shape, rep in chosen:
         first_self = shape[0] > 0 and rng.random() < 0.12
@@ -566,7 +618,7 @@ def run(chk: Check) -> int:
         for c in gen_cases_for_sig(rng, sig, names, rich=chk.thorough):
             cases.append(c)
             origin.append(f"gen:{sig_count}")
-    found += value_correspondence(chk, stats)
+    value_diffs = value_correspondence(chk, stats)
     distinct = set()
     hist = {"via": {}, "stream": {}, "template": {}, "nparams": {}}
     samples = []
@@ -619,6 +671,9 @@ def run(chk: Check) -> int:
         if len(chk.violations) > before:
             found += 1
             seen_sig.add((f["kind"], "reported"))
+    if not found and value_diffs:
+        report_value_diffs(chk, value_diffs)
+        found += 1
     if not found:
         kinds = set()
         for case, f, org in corr_fails:
@@ -633,17 +688,18 @@ def run(chk: Check) -> int:
         "evaluations": evaluations,
         "distinct_nontrivial": len(distinct),
         "rule": "one evaluation = one (signature, template, key context, entry point) with its groups of calls; signatures: "
-                + ("every shape of <= 4 parameters over positional-or-keyword / keyword-only / *args / **kwargs with and without defaults, twice with different defaults and values"
-                   if chk.thorough else "110 shapes sampled from all shapes of <= 4 parameters")
+                + f"every one of the {len(shapes)} shapes of <= 4 parameters over positional-or-keyword / keyword-only / *args / **kwargs with and "
+                  f"without defaults, {reps} time(s) with different default values, names and argument values"
                 + "; templates: generated, generated with an excluded parameter, explicit separated and explicit arbitrary; "
-                "calls: a base bound tuple and up to 3 one-place mutants from the typed alphabet, each in every equivalent call form "
-                "(k leading positionals x keyword / omitted-default choices x keyword orders), plus a malformed stream (unbindable calls, "
+                "calls: two families (any value types / scalars only) of a base bound tuple and up to 3 one-place mutants from the typed alphabet, each in every equivalent call form "
+                "(k leading positionals x keyword / omitted-default choices x keyword orders x dict insertion orders), plus a malformed stream (unbindable calls, "
                 "'' and ':' texts, fields that are no parameters). A case is non-trivial iff it compared at least two call forms of one "
                 "bound tuple, checked a separation pair inside the stated domain, took the keyword-only path with defaults applied, the raw-kwargs "
                 "fallback, the formatter's slow path, a TypeError from bind, or a decorated cache hit; distinct = distinct case contents",
-        "exhaustive": bool(chk.thorough),
-        "exhaustive_subspace": ("all %d signature shapes with <= 4 parameters; all 256 one-byte and 65536 two-byte bytes values for the rendering" % len(shapes))
-                               if chk.thorough else "all 256 one-byte bytes values for the rendering (signature shapes and two-byte values are sampled in the quick tier)",
+        "exhaustive": True,
+        "exhaustive_subspace": ("all %d signature shapes with <= 4 parameters (default values, argument values and explicit templates are sampled); "
+                                "all 256 one-byte bytes values for the rendering" % len(shapes))
+                               + ("; all 65536 two-byte bytes values" if chk.thorough else ""),
         "signature_shapes_total": len(shapes),
         "signatures_run": sig_count,
         "calls_compared": calls_total,
